@@ -13,7 +13,8 @@ RULE = ("seeded random tweezer kernels of arity 1-6 called from a generated @mov
         "arguments and a random permutation of the keyword order, with constant (literal) and non-constant (parameter) "
         "operands; the three real gen implementations are exercised in isolation: spec.interp (spec-carrying interpreter), "
         "main (spec stamped on the statement by InjectSpecRule, plain interpreter; and unstamped = no spec), constprop "
-        "(const.Propagate on the stamped / unstamped method); plus callee-is-not-a-device-function and failing-kernel cases. "
+        "(const.Propagate on the stamped / unstamped method); plus callee-is-not-a-device-function and failing-kernel cases, and "
+        "programs calling two device functions with different tones over one kernel with equal arguments. "
         "non-trivial = call with at least one keyword argument or a reversed task; distinct = distinct (kernel, call shape).")
 TRUSTED = ["modelled, not verified: kirin's interpreter / const propagation framework, permute_values (Model/Gen3.lean, compared "
            "on every call), the kernel itself (abstracted as a trace function; its op sequence comes from the generator)"]
@@ -180,6 +181,64 @@ def run_case(ctx, spec, traps, c, out, cache={}):
     ctx.count(f"kw_{min(len(kws), 3)}")
 
 
+def run_twin(ctx, spec, c):
+    """two device functions over ONE kernel object, different tone lists, the same constant arguments, both calls in one
+    program: every route must give each call the tones of its own device function"""
+    from kirin import rewrite
+    from kirin.analysis import const
+    from bloqade.shuttle.dialects import path
+    from bloqade.shuttle.passes.inject_spec import InjectSpecRule
+    main = c["kernels"][-1]
+    params = main["params"]
+    src = T.program_source(c["kernels"])[len(T.PRELUDE):]
+    args = ", ".join(lit(params[i][1], c["wire"][i]) for i in range(len(params)))
+    xt2 = [t + 1 for t in c["xt"]] + [0]
+    yt2 = list(reversed(c["yt"])) + [7]
+    text = MOVE_HDR + src + "\n".join([
+        "@move(fold=False)", "def prog():",
+        f"    fa = schedule.device_fn(main, ilist.IList({c['xt']}), ilist.IList({c['yt']}))",
+        f"    fb = schedule.device_fn(main, ilist.IList({xt2}), ilist.IList({yt2}))",
+        f"    fa({args})", f"    fb({args})", f"    fa({args})"]) + "\n"
+    try:
+        mod = T.load_source(text, "c05t")
+    except Exception:  # noqa: BLE001
+        ctx.count("twin_compile_fail")
+        return
+    prog = mod.prog
+    stamped = prog.similar()
+    rewrite.Walk(InjectSpecRule(spec)).rewrite(stamped.code)
+    case = {"source": text[len(MOVE_HDR):], "twin": True}
+    want_tones = [(c["xt"], c["yt"]), (xt2, yt2), (c["xt"], c["yt"])]
+    ctx.count("twin_programs")
+    runs = {"spec": EV.run_with_events(prog, spec, ()), "main": EV.run_with_events(stamped, spec, (), plain=True)}
+    ref = None
+    for k, r in runs.items():
+        if r.error is not None:
+            continue
+        plays = [e[1] for e in r.events if e[0] == "play"]
+        got = [(list(map(int, p.x_tones)), list(map(int, p.y_tones))) for p in plays]
+        if got != want_tones:
+            ctx.fail(case, f"route {k}: the calls of two device functions over one kernel carry tones {got}, their own are {want_tones}")
+        canon = [safe_canon(p) for p in plays]
+        if ref is not None and canon != ref:
+            ctx.fail(case, f"routes spec / main play different paths for two device functions over one kernel")
+        ref = canon
+    try:
+        frame, _ = const.Propagate(stamped.dialects).run_analysis(stamped, no_raise=False)
+        gens = [st for st in stamped.callable_region.walk() if isinstance(st, path.Gen)]
+        folded = [frame.entries.get(g.result) for g in gens]
+        # the textually identical first and third call are merged by CSE: compare with the distinct run-time paths, in order
+        ref = None if ref is None else list(dict.fromkeys(ref))
+        if ref is not None and len(gens) == len(ref) and all(isinstance(f, const.Value) for f in folded):
+            fc = [safe_canon(f.data) for f in folded]
+            if fc != ref:
+                ctx.fail(case, f"constprop folds the calls of two device functions over one kernel to {[x[:80] for x in fc]}, "
+                               f"the run-time routes play {[x[:80] for x in ref]}")
+            ctx.count("twin_folded")
+    except Exception:  # noqa: BLE001
+        ctx.count("twin_fold_raised")
+
+
 def second_spec():
     """same zone names as the default spec, different geometry: a route that remembers a
     path across specs (a cache keyed without the spec) shows up as a disagreement"""
@@ -201,6 +260,8 @@ def run(ctx):
     for _ in range(n):
         c = build_case(ctx.rng, g)
         run_case(ctx, spec, traps, c, out)
+        if c["const"] and not c["other"] and ctx.rng.random() < 0.5:
+            run_twin(ctx, spec, c)
         if "trap" in repr(c["kernels"]):
             # the same program, same arguments, under a second spec in the same process
             ctx.count("second_spec_runs")
